@@ -182,6 +182,9 @@ def gen_spec(rng, size=None, features=None):
                 # several commands in one step: shell state set by an earlier command (here
                 # the working directory) must still hold for the later ones
                 nd['chdir'] = 'wd%d' % i
+                # the leading commands as plain shell strings or as argument lists: file
+                # objects named in a LATER list-form line are dependencies either way
+                nd['chdir_str'] = rng.random() < 0.5
         elif kind == 'pch':
             if 'pch' not in feats:
                 continue
@@ -307,7 +310,11 @@ def render(spec, stub='vrec'):
             cmd = [repr(stub), repr('--id=%d' % i)] + [_ref(r) for r in nd['refs']]
             files = ', files=[%s]' % ', '.join(_ref(r) for r in nd['files']) if nd['files'] else ''
             envs = ", environment={'VF_E': %r}" % nd['env'] if nd.get('env') else ''
-            if nd.get('chdir'):
+            if nd.get('chdir') and nd.get('chdir_str'):
+                L.append("%s = command(%r, cmds=[%r, %r, [%s]]%s%s%s)"
+                         % (v, nd['name'], 'mkdir -p ' + nd['chdir'], 'cd ' + nd['chdir'],
+                            ', '.join(cmd), files, envs, extra))
+            elif nd.get('chdir'):
                 L.append("%s = command(%r, cmds=[['mkdir', '-p', %r], ['cd', %r], [%s]]%s%s%s)"
                          % (v, nd['name'], nd['chdir'], nd['chdir'], ', '.join(cmd), files, envs,
                             extra))
